@@ -36,38 +36,49 @@ TextFails(r, want) ==
 (* ---- parsed definition --------------------------------------------------- *)
 ItemFields(kind) == IF kind = "kv" THEN {"key", "name", "tags", "type", "custom", "disp", "def", "desc", "ro", "rep", "list"}
                     ELSE {"key", "name", "tags", "type", "custom", "desc"}
-ItemFails(kind, got, want) ==
-    IF Len(got) # Len(want) THEN {F("doc.parsed." \o kind \o ".count", Len(want))}
-    ELSE UNION {{F("doc.parsed." \o kind \o "." \o f, [index |-> k, value |-> want[k][f]]) :
-                    f \in {f \in ItemFields(kind) : got[k][f] # want[k][f]}} : k \in 1..Len(want)}
-ParsedFails(got, want) ==
+\* Items are matched by (key, tags): the order in which the writer lists keyvalues, inputs and
+\* outputs is its own business (the second export being the first is checked on the real text).
+\* `alt` is the acceptable alternative reading (same items, same positions as `want`).
+Id(x) == <<x.key, x.tags>>
+ItemFails(kind, got, want, alt) ==
+    IF Len(got) # Len(want) \/ {Id(got[k]) : k \in 1..Len(got)} # {Id(want[k]) : k \in 1..Len(want)}
+       \/ Cardinality({Id(got[k]) : k \in 1..Len(got)}) # Len(got)
+    THEN {F("doc.parsed." \o kind \o ".count", [k \in 1..Len(want) |-> Id(want[k])])}
+    ELSE UNION {LET g == got[CHOOSE j \in 1..Len(got) : Id(got[j]) = Id(want[k])] IN
+                {F("doc.parsed." \o kind \o "." \o f, [index |-> k, value |-> want[k][f]]) :
+                    f \in {f \in ItemFields(kind) : g[f] # want[k][f] /\ g[f] # alt[k][f]}} : k \in 1..Len(want)}
+ParsedFails2(got, want, alt) ==
     UNION {{F("doc.parsed." \o f, want[f]) :
-                f \in {f \in {"cls", "kind", "alias", "bases", "helpers", "desc", "order", "res_set", "res"} : got[f] # want[f]}},
-           ItemFails("kv", got.kvs, want.kvs), ItemFails("in", got.ins, want.ins), ItemFails("out", got.outs, want.outs)}
+                f \in {f \in {"cls", "kind", "alias", "bases", "helpers", "desc", "res_set", "res"} : got[f] # want[f]}},
+           ItemFails("kv", got.kvs, want.kvs, alt.kvs), ItemFails("in", got.ins, want.ins, alt.ins),
+           ItemFails("out", got.outs, want.outs, alt.outs)}
+ParsedFails(got, want) == ParsedFails2(got, want, want)
+
+\* where the written text first departs from the model's text: only to help reading a report,
+\* never a mismatch by itself (quoting, ordering and layout are the writer's)
+Near(r, want) ==
+    LET m == IF Len(r.lines) < Len(want) THEN Len(r.lines) ELSE Len(want)
+        d == {k \in 1..m : r.lines[k] # want[k]}
+    IN  IF d = {} THEN [line |-> 0, model |-> ""] ELSE LET k == CHOOSE x \in d : \A y \in d : x <= y IN [line |-> k, model |-> want[k]]
 
 EntFails(r) ==
-    LET cs == r.opts.cs  ls == r.opts.ls
-        want == ExportLines(r.orig, cs, ls)
-    IN  IF Len(r.err) >= 6 /\ SubSeq(r.err, 1, 6) = "export" THEN {F("doc.export", "no error")} ELSE
-        \* the original syntax cannot express a backslash: such definitions are outside what
-        \* custom_syntax=False is asked to bring back; only the text is judged then
-        IF ~cs /\ ~PlainSafe(r.orig) THEN TextFails(r, want) ELSE
-        UNION {
-        TextFails(r, want),
-        IF r.err # "" THEN {F("doc.parse", "no error")}
-        ELSE ParsedFails(r.parsed, ExportParse(r.orig, cs, ls)),
+    LET cs == r.opts.cs  ls == r.opts.ls IN
+    IF Len(r.err) >= 6 /\ SubSeq(r.err, 1, 6) = "export" THEN {F("doc.export", "no error")} ELSE
+    \* the original syntax cannot express a backslash: such definitions are outside what
+    \* custom_syntax=False is asked to bring back
+    IF ~cs /\ ~PlainSafe(r.orig) THEN {} ELSE
+    UNION {
+        IF r.err # "" THEN {F("doc.parse", [want |-> "no error", near |-> Near(r, ExportLines(r.orig, cs, ls))])}
+        ELSE ParsedFails2(r.parsed, ExportParse(r.orig, cs, ls), ExportParseAlt(r.orig, cs, ls)),
+        \* the real writer's two outputs
         IF r.err = "" /\ ReExportable(r.orig, cs) /\ r.h1 # r.h2 THEN {F("doc.reexport", r.h1)} ELSE {}}
 
 (* ---- long strings -------------------------------------------------------- *)
 LongFails(r) ==
-    LET want == LongSections(r.ext, r.text, LIMIT, MINNL)
-        expect == IF r.ext THEN r.text ELSE PlainDecay(r.text)
+    \* (where the writer cuts is its own choice; what counts is that every piece is a well-formed
+    \* quoted string and that the pieces read back as the text)
+    LET expect == IF r.ext THEN r.text ELSE PlainDecay(r.text)
     IN  UNION {
-        IF r.secs # want THEN {F("long.sections", [count |-> Len(want),
-                                  first |-> IF \E k \in 1..Len(want) : k > Len(r.secs) \/ r.secs[k] # want[k]
-                                            THEN CHOOSE k \in 1..Len(want) : (k > Len(r.secs) \/ r.secs[k] # want[k])
-                                                     /\ \A m \in 1..(k - 1) : m <= Len(r.secs) /\ r.secs[m] = want[m]
-                                            ELSE Len(want) + 1])} ELSE {},
         IF \E k \in 1..Len(r.secs) : ~WellFormedSection(r.secs[k]) THEN {F("long.wellformed", TRUE)} ELSE {},
         IF (\A k \in 1..Len(r.secs) : WellFormedSection(r.secs[k])) /\ ReadSections(r.secs) # expect
             THEN {F("long.law", Len(expect))} ELSE {},
